@@ -39,8 +39,9 @@ func filterManifestsToKeep(manifests []releaseutil.Manifest) (keep, remaining []
 		resourcePolicyType = strings.ToLower(strings.TrimSpace(resourcePolicyType))
 		if resourcePolicyType == kube.KeepPolicy {
 			keep = append(keep, m)
+		} else {
+			remaining = append(remaining, m)
 		}
-
 	}
 	return keep, remaining
 }
